@@ -21,18 +21,21 @@ schedule below against the real code on every run and its monitors report the sa
   * two event-generation shapes of catalog_events.go           `no_change_skipped_counterexample_connect_native`,
                                                                `view_ok_counterexample_rename_order`
 What is proved, for ALL schedules of unbounded length and all write histories:
-  * under the per-action hypothesis `CleanRun` (subscriptions start with nothing queued and not via
-    the resume path; faithful, well-indexed writes; restore only while idle):
+  * under the per-action hypothesis `CleanRun` (subscriptions — fresh, resumed, or served from the
+    snapshot cache — start with nothing queued; faithful, well-indexed writes; restore only
+    while idle):
     `view_ok_partial` (ViewOk ∧ Mono), `indexes_monotone_partial`, `no_change_skipped_partial`,
-    `quiescent_view_is_current`; `view_ok_partial_syntactic` replaces the semantic hypothesis on
+    `resumed_subscription_is_current`, `quiescent_view_is_current`;
+    `view_ok_partial_syntactic` replaces the semantic hypothesis on
     writes by the syntactic `CleanWrite`, justified by `events_faithful_partial`;
   * with the index guard of inmem/watch.go in the materializer, subscriptions may start at ANY
     moment: `view_ok_with_index_guard`, `no_change_skipped_with_index_guard`,
     `indexes_monotone_with_index_guard`;
   * without any hypothesis: `forced_resubscribe_acl`, `forced_resubscribe_restore`,
     `closed_subscription_delivers_nothing`.
-Not proved (monitored on the implementation only): the resume path of `Subscribe`, registrations
-that change the address of a node that already has instances, whole-node deregistration.
+Not proved (monitored on the implementation only): registrations that change the address of a
+node that already has instances, whole-node deregistration; the resume path under the index
+guard.
 -/
 import CV.Proofs.StreamClean
 namespace CV.Stream
@@ -43,11 +46,11 @@ namespace CV.Stream
     start with an empty publish queue (`CleanRun`), after every step every subscriber holds
     exactly the result of the direct query at the delivered commit. Missing for the full
     statement: subscriptions that start between a commit and its publication (false, see
-    `view_ok_all_schedules_counterexample`), the resume path, unfaithful writes. -/
+    `view_ok_all_schedules_counterexample`), unfaithful writes, restore while busy. -/
 theorem view_ok_partial (ttl : Bool) (acts : List Act) (h : CleanRun (Sys.init ttl) acts) :
     ViewOk (run (Sys.init ttl) acts) ∧ Mono (run (Sys.init ttl) acts) :=
-  ⟨fun c hc => ((Inv.init ttl).run acts h).exact c hc,
-   ((MInv.init ttl).run (Inv.init ttl) acts h).mono⟩
+  ⟨fun c hc => ((AllInv.init ttl).run acts h).inv.exact c hc,
+   ((AllInv.init ttl).run acts h).minv.mono⟩
 
 /-- **indexes_monotone (partial), with what it rests on.** In every clean schedule the indexes
     an open subscription can still deliver are ascending, start at or above the last delivered
@@ -56,7 +59,7 @@ theorem indexes_monotone_partial (ttl : Bool) (acts : List Act) (h : CleanRun (S
     ∀ c ∈ (run (Sys.init ttl) acts).clients, c.sub = .opened →
       Asc c.lastDelivered (stepIdxs (c.inbox ++ queueItems c.key (run (Sys.init ttl) acts).queue))
         (run (Sys.init ttl) acts).lastIdx :=
-  ((MInv.init ttl).run (Inv.init ttl) acts h).ord
+  ((AllInv.init ttl).run acts h).minv.ord
 
 /-- **events are faithful (partial).** For every well-formed catalog and every write that satisfies
     the syntactic condition `CleanWrite`, the events `catalog_events.go` / `config_entry_events.go`
@@ -71,7 +74,7 @@ theorem events_faithful_partial {c : Cat} (h : WF c) (idx : Nat) (w : Write) (hw
     `CleanRunS` is a syntactic condition on the schedule prefix. -/
 theorem view_ok_partial_syntactic (ttl : Bool) (acts : List Act) (h : CleanRunS (Sys.init ttl) acts) :
     ViewOk (run (Sys.init ttl) acts) ∧ Mono (run (Sys.init ttl) acts) :=
-  view_ok_partial ttl acts (h.clean (Inv.init ttl))
+  view_ok_partial ttl acts (h.clean (AllInv.init ttl))
 
 /-- **no_change_skipped (partial).** In every clean schedule, what an open subscription can
     still read (its buffer suffix plus the batches still queued for publication) replays, exactly
@@ -80,7 +83,18 @@ theorem no_change_skipped_partial (ttl : Bool) (acts : List Act) (h : CleanRun (
     ∀ c ∈ (run (Sys.init ttl) acts).clients, c.sub = .opened →
       Sim c.m (c.inbox ++ queueItems c.key (run (Sys.init ttl) acts).queue)
         (query c.key (run (Sys.init ttl) acts).cat) :=
-  fun c hc ho => ((Inv.init ttl).run acts h).sim c hc ho
+  fun c hc ho => ((AllInv.init ttl).run acts h).inv.sim c hc ho
+
+/-- **the resume path is sound (in clean schedules).** Whenever `Subscribe` would resume a
+    materializer (`req.Index > 0 && topicHead.HasEventIndex(req.Index)`) while nothing is queued,
+    that materializer already holds the current direct-query result. -/
+theorem resumed_subscription_is_current (ttl : Bool) (acts : List Act) (h : CleanRun (Sys.init ttl) acts) :
+    ∀ c ∈ (run (Sys.init ttl) acts).clients, (run (Sys.init ttl) acts).queue = [] →
+      resumes c (lookup? c.key (run (Sys.init ttl) acts).lasts) = true →
+      ViewEq c.m.view (query c.key (run (Sys.init ttl) acts).cat) := by
+  intro c hc hq hr
+  obtain ⟨pc, hri⟩ := ((AllInv.init ttl).run acts h).rinv
+  exact resume_view_current hri hq hc hr
 
 /-- corollary: a subscriber with nothing left to read while nothing is queued holds the
     current state -/
@@ -287,9 +301,9 @@ def witnessClean : List Act :=
 theorem cleanRun_nonvacuous : CleanRun (Sys.init true) witnessClean := by
   refine ⟨trivial, trivial, ⟨by decide, faithful_cfgSet _ _ _ _⟩, trivial, ?_, trivial, trivial,
     ⟨?_, faithful_cfgSet _ _ _ _⟩, trivial, ?_, trivial, trivial, trivial, trivial⟩
-  · show CleanSub _ 1; decide
+  · show CleanSubR _ 1; decide
   · decide
-  · show CleanSub _ 2; decide
+  · show CleanSubR _ 2; decide
 
 /-- … and it ends with both materializers updated to index 3 (so `ViewOk` says something) -/
 theorem cleanRun_delivers :
@@ -308,8 +322,8 @@ theorem cleanRunS_nonvacuous : CleanRunS (Sys.init true) witnessCleanSvc := by
   refine ⟨trivial, trivial, ⟨by decide, ?_⟩, trivial, ?_, ?_, trivial, trivial, trivial, trivial,
     ⟨by decide, ?_⟩, trivial, trivial, trivial, ⟨by decide, trivial⟩, trivial, trivial, trivial, trivial⟩
   · exact ⟨rfl, Or.inr ⟨by decide, by rfl⟩⟩
-  · show CleanSub _ 1; decide
-  · show CleanSub _ 2; decide
+  · show CleanSubR _ 1; decide
+  · show CleanSubR _ 2; decide
   · refine ⟨rfl, Or.inl ⟨by rfl, ?_, ?_⟩⟩
     · rintro ⟨b, hb, -, -, hs⟩
       exact hs rfl
@@ -321,6 +335,31 @@ theorem cleanRunS_nonvacuous : CleanRunS (Sys.init true) witnessCleanSvc := by
 
 theorem cleanRunS_delivers :
     (run (Sys.init true) witnessCleanSvc).clients.map (fun c => (c.m.index, c.m.view)) = [(4, []), (4, [])] := by rfl
+
+/-- a clean schedule through the RESUME path: subscriber 1 disconnects and re-subscribes with
+    the index it holds while subscriber 2 keeps the topic buffer alive -/
+def witnessResume : List Act :=
+  [.client 1 (hkey "web") "t1" false, .client 2 (hkey "web") "t2" true,
+   .commit 2 (.reg "n1" 1 (some (svc "n1" "s1" "web" 80 .typical))), .publishOne,
+   .subscribe 1, .subscribe 2, .next 1, .next 1,
+   .commit 3 (.cfgSet "web" 1), .commit 4 (.dereg "n1" (some "s1")), .publishOne, .publishOne, .next 1,
+   .unsub 1, .subscribe 1,
+   .commit 5 (.kv), .publishOne, .next 1]
+
+theorem cleanRunS_resume_nonvacuous : CleanRunS (Sys.init false) witnessResume := by
+  refine ⟨trivial, trivial, ⟨by decide, ?_⟩, trivial, ?_, ?_, trivial, trivial,
+    ⟨by decide, trivial⟩, ⟨by decide, trivial⟩, trivial, trivial, trivial, trivial, ?_,
+    ⟨by decide, trivial⟩, trivial, trivial, trivial⟩
+  · exact ⟨rfl, Or.inr ⟨by decide, by rfl⟩⟩
+  · show CleanSubR _ 1; decide
+  · show CleanSubR _ 2; decide
+  · show CleanSubR _ 1; decide
+
+/-- the re-subscription of the witness really is a resume (empty inbox, `resumeStreamHandler`,
+    view and index kept) -/
+theorem witnessResume_resumes :
+    (getClient (run (Sys.init false) (witnessResume.take 15)) 1).map (fun c => (c.inbox, c.m.h, c.m.index, c.m.view))
+      = some ([], .resume, 4, []) := by rfl
 
 /-- the known-finding window with config entries: two commits queued, subscribe, publish. Without
     the guard the delivered indexes decrease; with the guard the hypotheses of
